@@ -27,7 +27,7 @@ LEVEL_NOTE = ("trusted: reference model's plain answers; scope as stated in the 
 RULE = ("one run = program (1-5 sites with stored values, 1-4 comparisons each, shared sites compared repeatedly in several tests) x route; sessions: active "
         "without flags (inline and/or plugin) and disabled; distinct = (operation, value type-path, answer pattern, route); non-trivial = at least one "
         "comparison answering False on the plain value")
-RULE += " Dimensions added while testing against seeded changes: a snapshot of the flag-less session handed to Example.run_inline whose inner run approves categories; a False comparison evaluated at import time before a first test that holds; twin files; single xfail tests."
+RULE += " Dimensions added while testing against seeded changes: a snapshot of the flag-less session handed to Example.run_inline whose inner run approves categories; a False comparison evaluated at import time before a first test that holds; twin files; single xfail tests; Is() in a dict whose sub-snapshot is only fetched first and compared on later evaluations."
 ASSUMPTIONS = ["sites without a stored value are outside the statement (missing value = AssertionError when disabled)", "xdist route is sampled (1.8 s per session)"]
 REAL_VS_STUB = {
     "real": ["inline_snapshot library / plugin from /repo/src", "pytest", "os.environ (CI variables)", "xdist workers (sample)", "Example.run_inline"],
